@@ -293,7 +293,9 @@ def run_interp(case):
                                "u": raw_normal_blocks(ip.u, kind),
                                "step_from": encode_post(res.step_from.solution_full, case),
                                "interp_from": encode_post(res.interp_from.solution_full, case),
-                               "times": [float(ip.t), float(res.step_from.t), float(res.interp_from.t)]})
+                               "times": [float(ip.t), float(res.step_from.t), float(res.interp_from.t)],
+                               "book": [{"out": np.atleast_1d(np.asarray(x.output_scale, dtype=np.float64)).tolist(), "nsteps": int(x.num_steps)}
+                                        for x in (ip, res.step_from, res.interp_from)]})
     return out
 
 
